@@ -176,3 +176,6 @@ func BytesEq(a, b []byte) bool {
 	}
 	return true
 }
+
+// FireTimerN fires the i-th pending timer (in creation order) after quiescing.
+func FireTimerN(i int) bool { time.Sleep(50 * time.Millisecond); return false }
